@@ -669,27 +669,45 @@ impl ASN1Type {
         &self,
         name: &str,
         tlds: &BTreeMap<String, ToplevelDefinition>,
-        mut reference_graph: Vec<&str>,
+        reference_graph: Vec<&str>,
+    ) -> bool {
+        let mut visited = reference_graph.into_iter().map(String::from).collect();
+        self.recurses_from(name, tlds, &mut visited)
+    }
+
+    /// `visited` holds every type reference that has been followed so far, on whatever path:
+    /// what can be reached from it has been searched already, and searching it again from
+    /// another path finds nothing new (and takes factorial time on densely connected types).
+    fn recurses_from(
+        &self,
+        name: &str,
+        tlds: &BTreeMap<String, ToplevelDefinition>,
+        visited: &mut std::collections::BTreeSet<String>,
     ) -> bool {
         match self {
             ASN1Type::ElsewhereDeclaredType(DeclarationElsewhere { identifier, .. }) => {
-                !reference_graph.contains(&identifier.as_str())
+                !visited.contains(identifier)
                     && (identifier == name
                         || tlds.get(identifier).is_some_and(|tld| {
-                            reference_graph.push(identifier);
-                            tld.recurses(name, tlds, reference_graph)
+                            visited.insert(identifier.clone());
+                            match tld {
+                                ToplevelDefinition::Type(ToplevelTypeDefinition { ty, .. }) => {
+                                    ty.recurses_from(name, tlds, visited)
+                                }
+                                _ => false,
+                            }
                         }))
             }
             ASN1Type::Choice(c) => c.options.iter().any(|opt|
                     // if an option is already marked recursive,
                     // it will be boxed and constitute a recursion
                     // boundary between `self` and the option type
-                    !opt.is_recursive && opt.ty.recurses(name, tlds, reference_graph.clone())),
+                    !opt.is_recursive && opt.ty.recurses_from(name, tlds, visited)),
             ASN1Type::Sequence(s) | ASN1Type::Set(s) => s.members.iter().any(|m|
                     // if a member is already marked recursive,
                     // it will be boxed and thus constitutes a recursion
                     // boundary between `self` and the member type
-                    !m.is_recursive && m.ty.recurses(name, tlds, reference_graph.clone())),
+                    !m.is_recursive && m.ty.recurses_from(name, tlds, visited)),
             _ => false,
         }
     }
